@@ -47,9 +47,9 @@ def base_seed() -> int:
 
 def jobs() -> int:
     try:
-        return max(1, int(os.environ.get("VERIF_JOBS", "0")) or (os.cpu_count() or 4))
+        return max(1, int(os.environ.get("VERIF_JOBS", "0")) or min(12, os.cpu_count() or 4))
     except ValueError:
-        return os.cpu_count() or 4
+        return min(12, os.cpu_count() or 4)
 
 
 # --------------------------------------------------------------------------------------
